@@ -5,8 +5,10 @@ package c13
 
 import (
 	"fmt"
+	"runtime"
 	"strings"
 	"sync"
+	"sync/atomic"
 	"testing"
 	"time"
 
@@ -56,6 +58,21 @@ type Scenario struct {
 	WriteTO       int                       `json:"write_timeout_ms"`
 	IdleTO        int                       `json:"idle_timeout_ms"`
 	Yields        map[string]core.YieldSpec `json:"yields,omitempty"`
+	// CBClose: a Close call that lands while a packet callback is running (issued from another
+	// goroutine started inside the callback of the packet with sequence number Seq; the callback
+	// then yields the processor Spin times before it returns, so that the close path advances as
+	// far as it can while the callback is still in progress).
+	CBClose *CBClose `json:"cb_close,omitempty"`
+}
+
+// CBClose: see Scenario.CBClose.
+type CBClose struct {
+	Kind string `json:"kind"` // session (ServerSession.Close) | server (Server.Close) | client (Client.Close of the reader)
+	Seq  int    `json:"seq"`
+	Spin int    `json:"spin"`
+	// Swap: publishers write packets Seq and Seq+1 in swapped order, so that over UDP the
+	// reorder buffer releases both within one datagram's processing.
+	Swap bool `json:"swap,omitempty"`
 }
 
 var shutdownSites = []string{
@@ -127,6 +144,11 @@ func gen(seed uint64, tier string) Scenario {
 		}
 	}
 	sc.Net = n
+	// hash-derived so that no other choice of the scenario moves
+	if x := core.HS(seed, "c13.cbclose", "", 0); x%100 < 30 {
+		sc.CBClose = &CBClose{Kind: []string{"session", "server", "client"}[(x>>8)%3], Seq: 2 + int((x>>16)%12),
+			Spin: []int{1, 4, 32, 256}[(x>>24)%4], Swap: (x>>32)%3 != 0}
+	}
 	if r.Bool(0.75) {
 		sc.Yields = map[string]core.YieldSpec{}
 		hot := map[string]bool{"ap.run.exec": true, "ap.run.after": true, "rb.pull.lock": true}
@@ -202,7 +224,7 @@ func run(t *testing.T, sc Scenario) *core.Result {
 	opts := sys.Options{Seed: sc.Seed, Net: sc.Net, Yields: sc.Yields, MaxSteps: 400000, Horizon: 30 * time.Minute, MaxHold: maxHold}
 	var summary map[string]any
 	res := sys.Run(t, opts, func(w *sys.World) {
-		w.ProbeInit("server_close_mid_run", "stream_close_mid_run", "client_close_concurrent", "client_close_mid_handshake",
+		w.ProbeInit("server_close_mid_run", "stream_close_mid_run", "client_close_concurrent", "client_close_mid_handshake", "close_inside_packet_callback",
 			"client_close_while_playing", "client_close_while_recording", "close_with_stalled_peer", "peer_vanished",
 			"server_close_with_sessions", "census_attributed_goroutines", "publisher", "secure", "session_closed_by_timeout_or_peer")
 		owners := core.NewOwners(classify)
@@ -247,11 +269,28 @@ func run(t *testing.T, sc Scenario) *core.Result {
 		}
 		var pmu sync.Mutex
 		var pktCBs []pcb
-		h.OnRTP = func(ss *gortsplib.ServerSession, _ *description.Media, _ format.Format, _ *rtp.Packet) {
+		var closeServerFn func(string)
+		var cbFired atomic.Bool
+		spin := func() {
+			for i := 0; i < sc.CBClose.Spin; i++ {
+				runtime.Gosched()
+			}
+		}
+		h.OnRTP = func(ss *gortsplib.ServerSession, _ *description.Media, _ format.Format, pkt *rtp.Packet) {
 			g := w.Log.NextG()
 			pmu.Lock()
 			pktCBs = append(pktCBs, pcb{ss, g})
 			pmu.Unlock()
+			if cb := sc.CBClose; cb != nil && cb.Kind != "client" && int(pkt.SequenceNumber) == cb.Seq && cbFired.CompareAndSwap(false, true) {
+				w.Probe("close_inside_packet_callback")
+				w.Log.Add("srv", "cbclose", "%s seq=%d spin=%d", cb.Kind, cb.Seq, cb.Spin)
+				if cb.Kind == "session" {
+					w.Go("cbcloser", func() { ss.Close() })
+				} else {
+					w.Go("cbcloser", func() { closeServerFn("in-callback") })
+				}
+				spin()
+			}
 		}
 		h.OnRTCP = func(ss *gortsplib.ServerSession, _ *description.Media, _ rtcp.Packet) {
 			g := w.Log.NextG()
@@ -276,7 +315,9 @@ func run(t *testing.T, sc Scenario) *core.Result {
 
 		var serverClosed, streamClosed bool
 		var smu sync.Mutex
-		closeServer := func(who string) {
+		var closeServer func(who string)
+		closeServerFn = func(who string) { closeServer(who) }
+		closeServer = func(who string) {
 			smu.Lock()
 			if serverClosed {
 				smu.Unlock()
@@ -468,7 +509,14 @@ func run(t *testing.T, sc Scenario) *core.Result {
 					return
 				}
 				if p.Role == "read" {
-					c.OnPacketRTPAny(func(*description.Media, format.Format, *rtp.Packet) {})
+					c.OnPacketRTPAny(func(_ *description.Media, _ format.Format, pkt *rtp.Packet) {
+						if cb := sc.CBClose; cb != nil && cb.Kind == "client" && int(pkt.SequenceNumber) == cb.Seq && cbFired.CompareAndSwap(false, true) {
+							w.Probe("close_inside_packet_callback")
+							w.Log.Add(name, "cbclose", "client seq=%d spin=%d", cb.Seq, cb.Spin)
+							w.Go(name+".cbcloser", func() { doClose("in-callback") })
+							spin()
+						}
+					})
 					if _, err := c.Play(nil); err != nil {
 						setState("failed")
 						return
@@ -496,7 +544,15 @@ func run(t *testing.T, sc Scenario) *core.Result {
 					for time.Now().Before(end) {
 						if p.Role == "publish" {
 							for _, m := range medias {
-								pkt := &rtp.Packet{Header: rtp.Header{Version: 2, PayloadType: m.Formats[0].PayloadType(), SequenceNumber: uint16(k), Timestamp: uint32(k * 3000)},
+								sq := k
+								if cb := sc.CBClose; cb != nil && cb.Swap {
+									if k == cb.Seq {
+										sq = k + 1
+									} else if k == cb.Seq+1 {
+										sq = k - 1
+									}
+								}
+								pkt := &rtp.Packet{Header: rtp.Header{Version: 2, PayloadType: m.Formats[0].PayloadType(), SequenceNumber: uint16(sq), Timestamp: uint32(sq * 3000)},
 									Payload: make([]byte, 100)}
 								if err := c.WritePacketRTP(m, pkt); err != nil && !strings.Contains(err.Error(), "queue is full") {
 									return
@@ -681,7 +737,7 @@ func run(t *testing.T, sc Scenario) *core.Result {
 			nf++
 		}
 	}
-	res.Nontrivial = res.Probes["client_close_concurrent"]+res.Probes["server_close_mid_run"]+res.Probes["stream_close_mid_run"]+res.Probes["peer_vanished"] > 0 &&
+	res.Nontrivial = res.Probes["client_close_concurrent"]+res.Probes["server_close_mid_run"]+res.Probes["stream_close_mid_run"]+res.Probes["peer_vanished"]+res.Probes["close_inside_packet_callback"] > 0 &&
 		(nf > 0 || len(res.YieldHits) > 0)
 	res.Sample = summary
 	return res
@@ -706,6 +762,11 @@ func shrink(sc Scenario) []Scenario {
 			c.Peers = append(c.Peers[:i], c.Peers[i+1:]...)
 			out = append(out, c)
 		}
+	}
+	if sc.CBClose != nil {
+		c := clone()
+		c.CBClose = nil
+		out = append(out, c)
 	}
 	if len(sc.Yields) > 0 {
 		c := clone()
